@@ -690,8 +690,9 @@ class GoldenDir(SubCheck):
                     raise Violation('C18/golden/len', 'golden cache holds %d items, recorded %d' % (len(c), len(man['cache'])))
                 if [ident_str(k) for k in c] != [ident_str(k) for k, _, _ in man['cache']]:
                     raise Violation('C18/golden/order', 'golden cache iterates in a different order')
-                if c.check():
-                    raise Violation('C18/golden/check', 'check() reports %s on the golden directory' % short([str(w.message) for w in c.check()], 300))
+                warns = common.run_check(c)
+                if warns:
+                    raise Violation('C18/golden/check', 'check() reports %s on the golden directory' % short(warns, 300))
             finally:
                 c.close()
             f = diskcache.FanoutCache(os.path.join(root, 'fanout'), shards=3)
